@@ -80,7 +80,8 @@ Definition cells_of (cf : smconf) (ps : list placed) : list (Z * Z * Z) :=
   map (fun p => let dm := den_max_of cf (map p_den (filter (fun q => (p_measure q =? p_measure p)%Z) ps)) in
                 (p_measure p, (p_num p * dm / p_den p)%Z, p_col p)) ps.
 
-Definition chart_wf (c0 c : smchart) : bool :=
+Definition chart_wf (c0 : smchart) (cp : smchart * option (list placed)) : bool :=
+  let c := fst cp in
   match ref_keys (c_type c) with
   | None => false
   | Some keys =>
@@ -92,13 +93,13 @@ Definition chart_wf (c0 c : smchart) : bool :=
       && forallb (fun h : Q * Z * Q => Qlt_bool 0 (snd h)) (c_holds c ++ c_rolls c)
       && longs_disjoint (c_holds c ++ c_rolls c)
       && forallb (on_snap_grid (sort_by bpm_lt (c_bpms c))) (chart_times c)
-      && match chart_placed conf c with
+      && match snd cp with
          | Some ps => distinct_cells (cells_of conf ps)
          | None => false
          end
   end.
 
-Definition set_wf (rated : bool) (s : smset) : bool :=
+Definition set_wf (pls : list (option (list placed))) (rated : bool) (s : smset) : bool :=
   match s_maps s with
   | [] => false
   | c0 :: _ =>
@@ -111,15 +112,15 @@ Definition set_wf (rated : bool) (s : smset) : bool :=
          | Some o, b :: _ => rated || Qeq_bool o (fst (fst b))
          | _, _ => false
          end
-      && forallb (chart_wf c0) (s_maps s)
+      && forallb (chart_wf c0) (combine (s_maps s) pls)
   end.
 
-Definition exact_regime (s : smset) : bool :=
+Definition exact_regime (pls : list (option (list placed))) (s : smset) : bool :=
   match s_maps s with
   | [] => true
   | c0 :: _ =>
       tempo_on_lines (sort_by bpm_lt (c_bpms c0))
-      && forallb (fun c => match chart_placed conf c with Some ps => measure_lcm_ok ps | None => false end) (s_maps s)
+      && forallb (fun pl : option (list placed) => match pl with Some ps => measure_lcm_ok ps | None => false end) pls
   end.
 
 Definition variants : list variant :=
@@ -129,16 +130,17 @@ Definition check (c : c03case) : verdict :=
   match c with
   | C03Write dom rated tol s out =>
       let txt := match out with Some (l, i) => Some (mk_text l i) | None => None end in
-      let wf := set_wf rated s in
-      {| corr_ok := existsb (fun v => match sm_write conf v s, txt with
+      let pls := map (chart_placed conf) (s_maps s) in     (* the writer model's row placement, computed once *)
+      let wf := set_wf pls rated s in
+      {| corr_ok := first_true (fun v => match sm_write conf v s, txt with
                                       | Some toks, Some t => match_toks tol toks t
                                       | None, None => true
                                       | _, _ => false end) variants;
-         spec_ok := negb wf || match txt with
+         spec_ok := if wf then match txt with
                                | Some t => match sm_denote t with
-                                           | Some d => write_spec tol (exact_regime s) s d
+                                           | Some d => write_spec tol (exact_regime pls s) s d
                                            | None => false end
-                               | None => false end;
+                               | None => false end else true;
          wf_ok := negb dom || wf |}
   end.
 
